@@ -435,7 +435,15 @@ def case_strategy(thorough):
         "kind": st.just("data"), "decl": st.just(d), "mode": st.sampled_from([None, None, "r", "w", "a"]),
         "mode_via": st.sampled_from(["class", "class", "generator"]), "inputs": st.lists(dspec.inputs_for(d), min_size=1, max_size=4),
         "shared_defs": st.booleans()}))
-    return st.one_of(types, data, data)
+    # two different nested classes competing for one $defs name, in one document
+    twin_decl = st.permutations([{"name": "a", "type": {"k": "data", "d": INNER}}, {"name": "b", "type": {"k": "data", "d": INNER2}},
+                                 {"name": "c", "type": {"k": "list", "a": {"k": "data", "d": INNER}}, "f": {"required": False}}]).map(
+        lambda fs: {"name": "D13", "base": "schema", "fields": list(fs)})
+    twins = twin_decl.flatmap(lambda d: st.fixed_dictionaries({
+        "kind": st.just("data"), "decl": st.just(d), "mode": st.none(), "mode_via": st.just("class"), "shared_defs": st.just(True),
+        "inputs": st.lists(st.fixed_dictionaries({"t": st.just("dict"), "v": st.just([["a", {"t": "dict", "v": [["p", 1]]}], ["b", {"t": "dict", "v": [["p", "s"]]}],
+                                                                                     ["c", {"t": "list", "v": [{"t": "dict", "v": [["p", "3"]]}]}]])}), min_size=1, max_size=1)}))
+    return st.one_of(types, types, types, types, types, types, data, data, data, data, data, data, data, data, data, data, data, data, twins)
 
 
 def campaign(ctx):
